@@ -372,6 +372,12 @@ where
 
 #[kani::proof]
 #[kani::unwind(66)]
+fn c10_c_s_m7a4_3_3() { c10_candidate::<32, 7>(4, 3, 3) }
+#[kani::proof]
+#[kani::unwind(66)]
+fn c10_c_s_m7a4_30_30() { c10_candidate::<32, 7>(4, 30, 30) }
+#[kani::proof]
+#[kani::unwind(66)]
 fn c10_c_s_m7_3_3() { c10_candidate::<32, 7>(64, 3, 3) }
 #[kani::proof]
 #[kani::unwind(66)]
